@@ -13,6 +13,7 @@ require (
 	golang.org/x/mod v0.24.0
 	golang.org/x/time v0.11.0
 	google.golang.org/grpc v1.71.1
+	gopkg.in/yaml.v3 v3.0.1
 	k8s.io/klog/v2 v2.130.1
 )
 
@@ -26,7 +27,6 @@ require (
 	golang.org/x/text v0.24.0 // indirect
 	google.golang.org/genproto/googleapis/rpc v0.0.0-20250227231956-55c901821b1e // indirect
 	google.golang.org/protobuf v1.36.5 // indirect
-	gopkg.in/yaml.v3 v3.0.1 // indirect
 )
 
 replace github.com/transparency-dev/witness => /repo
